@@ -25,14 +25,22 @@
      its unit (pts / dts rescaled to 90 kHz, random-access flag, payload ids) or nothing (video unit
      skipped before the first random-access one; audio unit of a non-leading track before the stream
      has started); c01_mpegts_log_only_grows along every history of successful writes from Start.
-   PARTIAL in two respects, decided on every run by the correspondence run (every decoded sample of
+   - c01_durations_chain_decode_times: in every state reachable by successful writes from Start, every
+     stream's log followed by its look-ahead unit is CHAINED: each unit's duration is the 32-bit
+     distance (uint32 conversion of the code) from its decode time to the next unit's;
+   - c01_base_times_contiguous: consecutive fragments of a track have contiguous base times: for any
+     two parts P, Q of a stream (evicted, listed or open) with only sample-less parts between them,
+     base(Q) = base(P) + the sum of P's sample durations - in every reachable state, for every
+     history whose decode times never decrease nor jump by 2^32 ticks or more (the guard is on the
+     written units only; c01_base_times_nonvacuous meets it with four finalized parts).
+   PARTIAL in one respect, decided on every run by the correspondence run (every decoded sample of
    every published part / segment is compared with the model's, all six codecs) and by the oracle
-   over the harness's own write log: (1) "consecutive fragments have contiguous base times" is not a
-   theorem; (2) that the bytes served for a part / segment decode to the model's samples / units is
-   the tie's claim, not a theorem (mediacommon's fMP4 and MPEG-TS writers are outside the model). *)
+   over the harness's own write log: that the bytes served for a part / segment decode to the
+   model's samples / units is the tie's claim, not a theorem (mediacommon's fMP4 and MPEG-TS writers
+   are outside the model). *)
 From Coq Require Import List ZArith Bool.
 From GoHls Require Import Model.Mux Proofs.MuxStream Proofs.MuxLift Proofs.MuxWindow Proofs.MuxHistory
-  Proofs.MuxPlaylist Proofs.MuxSamples Proofs.MuxLog Proofs.MuxLogStep Proofs.MuxLogTS.
+  Proofs.MuxPlaylist Proofs.MuxSamples Proofs.MuxLog Proofs.MuxLogStep Proofs.MuxLogTS Proofs.MuxPartIds Proofs.MuxChain.
 Import ListNotations.
 Local Open Scope Z_scope.
 
@@ -147,3 +155,31 @@ Theorem c01_example_nonvacuous : exists m0,
   /\ map (fun s => (s_pay s, s_dts s, s_dur s)) (slog (mux_run m0 ex_ops) 0) = [(11, 900000, 3000); (12, 903000, 3000)].
 Proof. exact log_example. Qed.
 Print Assumptions c01_example_nonvacuous.
+
+(* ---- durations and base times ---- *)
+Theorem c01_durations_chain_decode_times : forall c m0 ops j,
+  start c = Ok m0 -> c_variant c <> MPEGTS -> all_ok m0 ops ->
+  chained (slog (mux_run m0 ops) j ++ pend_list (mux_run m0 ops) j).
+Proof. exact durations_chain_decode_times. Qed.
+Print Assumptions c01_durations_chain_decode_times.
+
+Theorem c01_base_times_contiguous : forall c m0 ops j s A P E Q B,
+  start c = Ok m0 -> c_variant c <> MPEGTS -> all_ok m0 ops ->
+  let m := mux_run m0 ops in
+  nth_error (m_streams m) j = Some s ->
+  all_parts s = A ++ P :: E ++ Q :: B ->
+  p_samples P <> [] -> p_samples Q <> [] -> Forall (fun p => p_samples p = []) E ->
+  steps_fit (slog m j ++ pend_list m j) ->
+  p_base Q = p_base P + sum_dur (p_samples P).
+Proof. exact base_times_contiguous. Qed.
+Print Assumptions c01_base_times_contiguous.
+
+Theorem c01_base_times_nonvacuous : exists m0 s P Q B,
+  start ex_cfg = Ok m0 /\ c_variant ex_cfg <> MPEGTS /\ all_ok m0 ch_ops
+  /\ nth_error (m_streams (mux_run m0 ch_ops)) 0 = Some s
+  /\ all_parts s = [] ++ P :: [] ++ Q :: B
+  /\ p_samples P <> [] /\ p_samples Q <> [] /\ Forall (fun p => p_samples p = []) []
+  /\ steps_fit (slog (mux_run m0 ch_ops) 0 ++ pend_list (mux_run m0 ch_ops) 0)
+  /\ (p_base P, map s_dur (p_samples P), p_base Q) = (900000, [9000; 9000], 918000).
+Proof. exact chain_example. Qed.
+Print Assumptions c01_base_times_nonvacuous.
